@@ -41,6 +41,8 @@ func rulesC01(c *Ctx) {
 	ruleSeekOnlyAnyOf(c, "C01.SEEKANYOF")
 	ruleChainLeaf(c, "C01.CHAINLEAF")
 	ruleSeekFromArgument(c, "C01.SEEKARG")
+	c.As("C15.SCANFILTER", "C01.SCANFILTER", func() { ruleC15ScanFilter(c) })
+	ruleInArrayExact(c, "C01.INEXACT")
 	ruleRawEntitiesCursor(c, "C01.RAWROWS")
 	ruleNeverWritten(c, "C01.FIELDS", astNodeTypes(c))
 	cts := c.cursorTypes()
